@@ -27,7 +27,7 @@ var c08IntegerMinimum = map[string]int64{
 
 func c08IntegerRanges(c *core.Check) {
 	p := c.Prog
-	r := c.Rule("R18", "integer ranges: in the validators of orphans, widows, column-count, max-lines and bookmark-level (<integer [1,∞]> in CSS) every use of the integer of a Number token, other than comparing it, is on the true side of a comparison of that integer with a constant ≥ 1", 5)
+	r := c.Rule("R18", "integer ranges: in the validators of orphans, widows, column-count, max-lines and bookmark-level (<integer [1,∞]> in CSS) every use of the integer of a Number token, other than comparing it, is on the true side of a comparison of that integer with a constant ≥ 1", 3)
 	tab, err := p.Table("css/validation", "validators")
 	if err != nil {
 		r.Anchor("css/validation.validators: " + err.Error())
@@ -157,7 +157,7 @@ func valueOf(in ssa.Instruction) ssa.Value {
 // IsNone() of that value was false.
 func c08NoneIsInvalid(c *core.Check) {
 	p := c.Prog
-	r := c.Rule("R19", "none is invalid: in every validator of the validators table, a returned property made from a call result whose type has an IsNone method is dominated by the false side of IsNone() on that result (the zero value the helpers use for 'not recognised' must become nil, not a value)", 6)
+	r := c.Rule("R19", "none is invalid: in every validator of the validators table, a returned property made from a call result whose type has an IsNone method is dominated by the false side of IsNone() on that result (the zero value the helpers use for 'not recognised' must become nil, not a value)", 5)
 	tab, err := p.Table("css/validation", "validators")
 	if err != nil {
 		r.Anchor("css/validation.validators: " + err.Error())
